@@ -6,7 +6,9 @@ from ..conds import facts_at, truth
 from ..facts import keyname, AnchorLost
 from ..flow import flow, deps, deep_strip, strip, show, mentions, fold, partial_fields
 from .util import call_sites, foreign, adt_constructions
-from .C02 import next_id_writes, _register_impls, DATA_T
+from .C02 import next_id_writes, next_id_writes_in, registering, DATA_T
+from . import reg
+from .. import inline
 
 SA_RESTART = 0x10000000
 SA_SIGINFO = 4
@@ -32,41 +34,65 @@ def map_calls(F, m):
     return out
 
 
+def next_id_reads(m):
+    """plain reads of the next_id field (Rvalue::Use or an aggregate operand; the `+ 1` of the increment is a BinaryOp and not listed):
+    [(bb, stmt index)]"""
+    out = []
+
+    def is_nid(o):
+        if o.get("k") not in ("copy", "move"):
+            return False
+        pp = o["p"]["p"]
+        return bool(pp) and pp[-1]["k"] == "field" and pp[-1]["n"] == "next_id" and DATA_T in (pp[-1].get("bt") or "")
+    for bb, bl in enumerate(m.blocks):
+        for si, s in enumerate(bl["s"]):
+            if s["k"] != "assign":
+                continue
+            r = s["r"]
+            if r["k"] == "use" and is_nid(r["o"]):
+                out.append((bb, si))
+            elif r["k"] == "aggregate" and any(is_nid(o) for o in r["ops"]):
+                out.append((bb, si))
+    return out
+
+
 def rule_a(ctx):
     F = ctx.F
     rid = "C05.a"
     ctx.rule(rid, "ids: every write to next_id is old+1 on a local clone; the returned SigId carries the pre-increment value and the signal "
                   "parameter; an id is returned only on the path that published that clone", floor=4)
-    ws = next_id_writes(F)
-    regdefs = {r.defp for r in _register_impls(F)}
-    ctx.check({i.defp for (i, _, _, _) in ws} <= regdefs, rid, "next_id:single-writer",
-              "next_id is written by the registering function only (never on unregister)", None, sorted({i.name for (i, _, _, _) in ws}))
-    for r in _register_impls(F):
-        ctx.fn(r)
+    regs = registering(F)
+    regids = {i.id for _, i, _ in regs}
+    writers = [i.name for fn, i in reg.public_fns(F) if next_id_writes_in(reg.RN(F, i)) and i.id not in regids]
+    ctx.check(not writers and next_id_writes(F), rid, "next_id:single-writer",
+              "next_id is written by the registering functions only (never on unregister)", None, writers)
+    L = reg.locks(F)
+    for fn, r0, r in regs:
+        ctx.fn(r0)
         fl = flow(r)
         aids = adt_constructions(r, "signal_hook_registry::ActionId")
         sids = adt_constructions(r, "signal_hook_registry::SigId")
         if not aids or not sids:
             raise AnchorLost("registration no longer builds ActionId / SigId")
-        wr = [(bb, si) for (i, bb, si, s) in ws if i.id == r.id]
+        wr = [(bb, si) for (bb, si, s) in next_id_writes_in(r)]
+        rds = next_id_reads(r)
         dom = cfg.dominators(r)
         for (abb, asi, rv) in aids:
             v = fl.operand(rv["ops"][0], (abb, asi))
-            from_next = all(deep_strip(e)[0] == "field" and deep_strip(e)[2] == "next_id" for e in v)
-            pre = all((abb == wbb and asi < wsi) or (abb in dom[wbb] and abb != wbb) for (wbb, wsi) in wr)
-            ctx.check(from_next and pre and wr, rid, "id:pre-increment@%s" % keyname(r.name), "the id is the value of next_id read before the increment", rv.get("sp") or r.span,
+            from_next = bool(v) and all(deep_strip(e)[0] == "field" and deep_strip(e)[2] == "next_id" for e in v)
+            pre = bool(rds) and all((rbb == wbb and rsi < wsi) or (rbb in dom[wbb] and rbb != wbb) for (rbb, rsi) in rds for (wbb, wsi) in wr)
+            ctx.check(from_next and pre and wr, rid, "id:pre-increment@%s" % keyname(r0.name), "the id is the value of next_id read before the increment", rv.get("sp") or r0.span,
                       {"from_next_id": from_next, "read_before_increment": pre})
-        from .pub import publish_sites
-        stores = [bb for bb, t, gi, vi in publish_sites(F, r, DATA_T)]
+        stores = [bb for bb, t in reg.calls_to(r, L.stores(DATA_T))]
         for (sbb, ssi, rv) in sids:
             fields = rv["fields"]
             sig = [deep_strip(e) for e in fl.operand(rv["ops"][fields.index("signal")], (sbb, ssi))]
             act = fl.operand(rv["ops"][fields.index("action")], (sbb, ssi))
-            act_ok = all(e[0] == "agg" and e[1][0] == "adt" and e[1][1].endswith("ActionId") for e in [deep_strip(x) for x in act])
-            ctx.check(sig == [("param", 1)] and act_ok, rid, "sigid:fields@%s" % keyname(r.name), "SigId = (signal parameter, the allocated id)", rv.get("sp") or r.span,
+            act_ok = bool(act) and all(e[0] == "agg" and e[1][0] == "adt" and e[1][1].endswith("ActionId") for e in [deep_strip(x) for x in act])
+            ctx.check(sig == [("param", 1)] and act_ok, rid, "sigid:fields@%s" % keyname(r0.name), "SigId = (signal parameter, the allocated id)", rv.get("sp") or r0.span,
                       {"signal": [show(e) for e in sig], "action": [show(e) for e in act]})
             published = any(s in dom[sbb] and s != sbb for s in stores)
-            ctx.check(published, rid, "sigid:only-after-publish@%s" % keyname(r.name), "the id is returned only after the clone carrying it was published", rv.get("sp") or r.span,
+            ctx.check(published, rid, "sigid:only-after-publish@%s" % keyname(r0.name), "the id is returned only after the clone carrying it was published", rv.get("sp") or r0.span,
                       "an id can be returned for a snapshot that was never published (id reuse)")
 
 
@@ -90,8 +116,9 @@ def rule_b(ctx):
     rid = "C05.b"
     ctx.rule(rid, "mutation footprint (forbidden sets): unregister removes at most the key id.action from signals[id.signal]; unregister_signal "
                   "touches only signals[signal]; registration never removes; slots of the signal map are never removed anywhere", floor=8)
-    un = F.one("signal_hook_registry::unregister"); us = F.one("signal_hook_registry::unregister_signal")
-    ctx.fn(un); ctx.fn(us)
+    un0 = F.one("signal_hook_registry::unregister"); us0 = F.one("signal_hook_registry::unregister_signal")
+    ctx.fn(un0); ctx.fn(us0)
+    un = reg.RN(F, un0); us = reg.RN(F, us0)
     for (bb, t, kind, meth) in map_calls(F, un):
         key = "unregister:%s::%s" % (kind, meth)
         if kind == "bt":
@@ -124,7 +151,7 @@ def rule_b(ctx):
                 ctx.bad(rid, key, "unregister_signal adds actions", t["sp"])
             else:
                 ctx.ok(rid, key, "map method %s on the looked-up slot" % meth, t["sp"])
-    for r in _register_impls(F):
+    for fn, r0, r in registering(F):
         for (bb, t, kind, meth) in map_calls(F, r):
             key = "register:%s::%s" % (kind, meth)
             if (kind == "bt" and (meth in BT_MULTI or meth in ("remove", "remove_entry"))) or (kind == "hm" and meth in HM_REMOVE):
@@ -150,10 +177,10 @@ def rule_c(ctx):
     ctx.rule(rid, "unregister's return value is `remove(..).is_some()` and the publish is control-dependent on that same boolean being true; "
                   "likewise unregister_signal (true only after clearing a non-empty slot)", floor=4)
     for name, kind in (("signal_hook_registry::unregister", "remove"), ("signal_hook_registry::unregister_signal", "clear")):
-        m = F.one(name)
+        m0 = F.one(name)
+        m = reg.RN(F, m0)
         fl = flow(m)
-        from .pub import publish_sites
-        stores = [(bb, t) for bb, t, gi, vi in publish_sites(F, m, DATA_T)]
+        stores = reg.calls_to(m, reg.locks(F).stores(DATA_T))
         if len(stores) != 1:
             raise AnchorLost("%s: expected exactly one publish" % name)
         sbb, stt = stores[0]
@@ -232,70 +259,81 @@ def _local_reaches_return(m, l):
     return 0 in seen
 
 
+SIG_FAMILY = ("sigaction", "signal", "sigset", "bsd_signal", "sysv_signal")
+
+
+def _classify_site(ctx, rid, F, h, m, bb, t, ci, key, counters):
+    """m: a normal form (or raw function) containing the call at bb"""
+    if ci.symbol != "sigaction":
+        ctx.bad(rid, key, "signal()/sigset() call: disposition changed outside the audited sigaction sites", t["sp"]); return
+    newp = flow(m).term_arg(bb, 1)
+    isnull = bool(newp) and all(deep_strip(e)[0] == "call" and (deep_strip(e)[3] or "").startswith("core::ptr::null") or fold(e) == 0 for e in newp)
+    if isnull:
+        ctx.ok(rid, key, "query: new action is null", t["sp"]); return
+    loc = None
+    for e in newp:
+        e = deep_strip(e)
+        while e[0] in ("ref", "cast"):
+            e = deep_strip(e[1])
+        if e[0] == "partial":
+            loc = e[1]
+        elif e[0] == "call" and m.term(e[1]).get("dest") and not m.term(e[1])["dest"]["p"]:
+            loc = m.term(e[1])["dest"]["l"]      # `&x` where x was created by this call (mem::zeroed()) and then filled field by field
+    if loc is None:
+        ctx.bad(rid, key, "cannot resolve the new action struct", t["sp"], [show(e) for e in newp]); return
+    pf = partial_fields(m, loc, (bb, len(m.stmts(bb))))
+    hv = pf.get("sa_sigaction") or pf.get("sa_handler") or []
+    is_handler = bool(hv) and all(mentions(e, lambda x: x[0] == "const" and x[5] == h.id) for e in hv)
+    is_dfl = bool(hv) and all(fold(e) == 0 for e in hv)
+    if is_handler:
+        counters["install"] += 1
+        fv = pf.get("sa_flags") or []
+        vals = [fold(e) for e in fv]
+        ctx.check(vals and all(v == (SA_RESTART | SA_SIGINFO) for v in vals), rid, key, "install: sa_flags folds to SA_RESTART | SA_SIGINFO", t["sp"],
+                  {"sa_flags": [show(e) for e in fv], "folded": vals, "expected": SA_RESTART | SA_SIGINFO})
+        others = [k for k in pf if k not in ("sa_sigaction", "sa_handler", "sa_flags")]
+        ctx.check(not others, rid, key + ":zeroed-rest", "remaining fields stay zeroed (empty sa_mask)", t["sp"], others)
+    elif is_dfl:
+        # allowed only when the process is about to die: no normal return of the entry point after the restore, and an abort behind it
+        after = cfg.reachable_after(m, bb, unwind=False)
+        returns = bool(after & set(m.exits()))
+        term = [b for b in after if m.term(b)["k"] == "call" and m.term(b).get("f") is not None and F.inst[m.term(b)["f"]].symbol == "abort"]
+        ctx.check(not returns and bool(term), rid, key, "SIG_DFL restore only on the terminating path of default emulation (followed by raise + abort, never returns)", t["sp"],
+                  {"entry_point": m.name, "returns_after_restore": returns, "abort_after_restore": bool(term)})
+    else:
+        ctx.bad(rid, key, "sigaction installs something that is neither the dispatcher nor SIG_DFL", t["sp"], {k: [show(e) for e in v] for k, v in pf.items()})
+
+
 def rule_d(ctx):
     F = ctx.F
     rid = "C05.d"
     ctx.rule(rid, "disposition: every sigaction/signal call site is an install (new action = the dispatcher, flags fold to SA_RESTART|SA_SIGINFO), "
-                  "a query (null new action) or the SIG_DFL restore of default emulation (never returns normally afterwards)", floor=3)
+                  "a query (null new action) or the SIG_DFL restore of default emulation (never returns normally afterwards); each site is judged in "
+                  "the normal form of every public entry point that reaches it", floor=3)
     h = handler(F)
-    n_install = 0
+    counters = {"install": 0}
+    pred = lambda c: c.kind == "foreign" and c.symbol in SIG_FAMILY
+    covered = set()
+    for crate in ("signal_hook_registry", "signal_hook"):
+        for fn, i in reg.public_fns(F, crate, ("Fn", "AssocFn")):
+            if not any(pred(F.inst[x]) for x in F.reach([i])):
+                continue
+            n = reg.RN(F, i)
+            for (bb, t, ci) in call_sites(F, n, pred):
+                ctx.fn(i)
+                srcf = inline.origin_of(F, n, bb)
+                covered.add((srcf.defp, t["sp"]))
+                _classify_site(ctx, rid, F, h, n, bb, t, ci, "%s@%s" % (ci.symbol, keyname(srcf.name)), counters)
+    # sites no public entry point reaches through direct calls (closures handed to the registry, dead helpers): judged in their own frame
     for m in F.inst:
         if m.body is None or not m.local or is_user_code(m):
             continue
-        for (bb, t, ci) in call_sites(F, m, lambda c: c.kind == "foreign" and c.symbol in ("sigaction", "signal", "sigset", "bsd_signal", "sysv_signal")):
+        for (bb, t, ci) in call_sites(F, m, pred):
+            if (m.defp, t["sp"]) in covered:
+                continue
             ctx.fn(m)
-            key = "%s@%s" % (ci.symbol, keyname(m.name))
-            if ci.symbol != "sigaction":
-                ctx.bad(rid, key, "signal()/sigset() call: disposition changed outside the audited sigaction sites", t["sp"]); continue
-            newp = flow(m).term_arg(bb, 1)
-            isnull = all(deep_strip(e)[0] == "call" and (deep_strip(e)[3] or "").startswith("core::ptr::null") or fold(e) == 0 for e in newp)
-            if isnull:
-                ctx.ok(rid, key, "query: new action is null", t["sp"]); continue
-            loc = None
-            for e in newp:
-                e = deep_strip(e)
-                while e[0] in ("ref", "cast"):
-                    e = deep_strip(e[1])
-                if e[0] == "partial":
-                    loc = e[1]
-            if loc is None:
-                ctx.bad(rid, key, "cannot resolve the new action struct", t["sp"], [show(e) for e in newp]); continue
-            pf = partial_fields(m, loc, (bb, len(m.stmts(bb))))
-            hv = pf.get("sa_sigaction") or pf.get("sa_handler") or []
-            is_handler = bool(hv) and all(mentions(e, lambda x: x[0] == "const" and x[5] == h.id) for e in hv)
-            is_dfl = bool(hv) and all(fold(e) == 0 for e in hv)
-            if is_handler:
-                n_install += 1
-                fv = pf.get("sa_flags") or []
-                vals = [fold(e) for e in fv]
-                ctx.check(vals and all(v == (SA_RESTART | SA_SIGINFO) for v in vals), rid, key, "install: sa_flags folds to SA_RESTART | SA_SIGINFO", t["sp"],
-                          {"sa_flags": [show(e) for e in fv], "folded": vals, "expected": SA_RESTART | SA_SIGINFO})
-                others = [k for k in pf if k not in ("sa_sigaction", "sa_handler", "sa_flags")]
-                ctx.check(not others, rid, key + ":zeroed-rest", "remaining fields stay zeroed (empty sa_mask)", t["sp"], others)
-            elif is_dfl:
-                # allowed only when the process is about to die: in every caller, no normal return after a successful restore
-                okk = True; why = []
-                after_here = cfg.reachable_after(m, bb, unwind=False)
-                if not (after_here & set(m.exits())):
-                    # the function itself never returns after the restore
-                    term = [b for b in after_here if m.term(b)["k"] == "call" and m.term(b).get("f") is not None and F.inst[m.term(b)["f"]].symbol == "abort"]
-                    ctx.check(bool(term), rid, key, "SIG_DFL restore only on the terminating path of default emulation (followed by raise + abort, never returns)", t["sp"],
-                              "no abort after the restore")
-                    continue
-                for (cid, k, cbb) in F.callers().get(m.id, []):
-                    c = F.inst[cid]
-                    if c.body is None or k != "call":
-                        continue
-                    after = cfg.reachable_after(c, cbb, unwind=False)
-                    if after & set(c.exits()):
-                        okk = False; why.append("%s returns after restoring SIG_DFL" % c.name)
-                    term = [b for b in after if c.term(b)["k"] == "call" and c.term(b).get("f") is not None and F.inst[c.term(b)["f"]].symbol == "abort"]
-                    if not term:
-                        okk = False; why.append("no abort after the restore in %s" % c.name)
-                ctx.check(okk, rid, key, "SIG_DFL restore only on the terminating path of default emulation (followed by raise + abort, never returns)", t["sp"], why)
-            else:
-                ctx.bad(rid, key, "sigaction installs something that is neither the dispatcher nor SIG_DFL", t["sp"], {k: [show(e) for e in v] for k, v in pf.items()})
-    ctx.check(n_install >= 1, rid, "install:exists", "%d installing sigaction site(s)" % n_install, None, "no installing site found")
+            _classify_site(ctx, rid, F, h, m, bb, t, ci, "%s@%s" % (ci.symbol, keyname(m.name)), counters)
+    ctx.check(counters["install"] >= 1, rid, "install:exists", "%d installing sigaction site(s)" % counters["install"], None, "no installing site found")
 
 
 def rule_e(ctx):
